@@ -450,7 +450,9 @@ func c08NameSample(r []rune) interface{} {
 func c08Auth(c *h.Ctx, dr *c08Drifts, ch *ntlm.ChallengeMessage, cf []byte, user, dom, ws []rune) int {
 	var b []byte
 	var err error
-	p := h.Guard(func() { b, err = ntlm.CreateAuthenticateMessage(ch, string(user), c08Password, string(dom), string(ws)) })
+	p := h.Guard(func() {
+		b, err = ntlm.CreateAuthenticateMessage(ch, string(user), c08Password, string(dom), string(ws))
+	})
 	c.Exec(1)
 	sample := map[string]interface{}{"user": c08NameSample(user), "domain": c08NameSample(dom), "workstation": c08NameSample(ws),
 		"challenge_flags": fmt.Sprintf("%#08x", ch.NegotiateFlags), "target_info_len": len(ch.TargetInfo)}
@@ -599,7 +601,9 @@ func c08Tok(c *h.Ctx, dr *c08Drifts, cs *c08Case, fromModel bool) {
 
 	// ---- NegTokenResp
 	w, err = nil, nil
-	if p := h.Guard(func() { w, err = spnego.CreateNegTokenResp(spnego.AcceptIncomplete, c08NtlmOID, append([]byte(nil), t...)) }); p != "" {
+	if p := h.Guard(func() {
+		w, err = spnego.CreateNegTokenResp(spnego.AcceptIncomplete, c08NtlmOID, append([]byte(nil), t...))
+	}); p != "" {
 		c.Fail(c08SiteResp, "panic", p, sample)
 		return
 	}
@@ -614,6 +618,25 @@ func c08Tok(c *h.Ctx, dr *c08Drifts, cs *c08Case, fromModel bool) {
 		fail(c08SiteResp, "roundtrip:extract-failed", problem)
 	} else if !bytes.Equal(got, t) {
 		fail(c08SiteResp, "roundtrip:token-differs", fmt.Sprintf("extracted %s (%d octets)", c08Short(got), len(got)))
+	}
+	// supportedMech is OPTIONAL (RFC 4178 4.2.2: only present in the first reply) and negState takes three values: the token
+	// wrapped without a mechanism, in every state that carries one, is extracted unchanged
+	if len(t) > 0 {
+		for _, st := range []asn1.Enumerated{spnego.Accept, spnego.AcceptIncomplete} {
+			var w2 []byte
+			var e2 error
+			if p := h.Guard(func() { w2, e2 = spnego.CreateNegTokenResp(st, nil, append([]byte(nil), t...)) }); p != "" || e2 != nil {
+				fail(c08SiteResp, "without-supportedMech:error", fmt.Sprintf("%v %s", e2, p))
+				continue
+			}
+			got2, problem2 := extract(w2)
+			c.Exec(1)
+			if problem2 != "" {
+				fail(c08SiteResp, "without-supportedMech:extract-failed", problem2)
+			} else if !bytes.Equal(got2, t) {
+				fail(c08SiteResp, "without-supportedMech:token-differs", fmt.Sprintf("extracted %s (%d octets)", c08Short(got2), len(got2)))
+			}
+		}
 	}
 	parse := func(w []byte) (r *spnego.NegTokenResp, problem string) {
 		var err error
